@@ -120,7 +120,14 @@ def perturb_nonidentity(g, rng):
 # ------------------------------------------------------------------ molecule pools
 def molecule_pool(rng, tier, corpus_cap=40, n_random=60, nmax=8, corpus_n=12):
     pool = []
-    for name, g in gen.symmetric_families(rng):
+    fam = gen.symmetric_families(rng)
+    if tier == "quick":
+        # a seeded sample of the families, always including the multi-fragment ones
+        keep = [x for x in fam if x[0].startswith("twins") or "Cl" in x[0] or "frag" in x[0] or x[0] == "ferrocene"]
+        rest = [x for x in fam if x not in keep]
+        rng.shuffle(rest)
+        fam = keep + rest[:48]
+    for name, g in fam:
         pool.append((name, g))
     for i in range(n_random):
         pool.append((f"rnd{i}", gen.random_molecule(rng, nmax)))
